@@ -109,7 +109,8 @@ class Book:
     def register(self, c):
         parts = c.qualname.split(".")
         key = (parts[0], parts[1]) if len(parts) == 2 else (None, parts[0])
-        self.contracts[key] = c
+        if not getattr(c, "relational", False):
+            self.contracts[key] = c
         sf = self.file(c.file)
         node, cls = sf.find(c.qualname)
         c.node = node
